@@ -34,9 +34,9 @@ claim("C09", "Per shape with symbolic name selectors (clones) and symbolic limit
 claim("C10", "Bounded model checking: for every ordered forest up to the node bound (quick 4, thorough 5) with unbounded symbolic integer labels (equal-comparing siblings included) every relationship query for every node, ordered pair, level and flag is compared with answers recomputed from the parent vector.", NOTE, XH, "5/C10")
 claim("C11", "Per pair of shapes all labels of both trees are unbounded symbolic ints (every overlap/clone/move pattern), ordered symbolic, reduce both ways; clauses a-h of the statement asserted separately (no marks on identical copy, both projections, marks exactly on one-sided children, moved-here has moved-away partner, order marks carry true indexes, reduce = marked nodes + ancestors, inputs unmodified).", NOTE + " S-set: list-backed set in nutree.diff.", XH, "5/C11")
 claim("C12", "Writer: the document handed to json.dump equals an independent encoder of the documented layout for the C05 trees/options, plus structural rules (parent/clone references point to earlier entries). Reader: encoder documents (with references and with clones spelled out), the user guide's three literal examples and six malformed headers load to the described tree / are rejected with RuntimeError.", NOTE, XH, "5/C12")
-claim("C13", "Part A (refusals): same step driver as C01-C04; whenever the call raised, the observation must equal the pre-state and the C01-C03 predicates must hold. Part B (callback faults at a symbolic invocation index) is not built yet and is outside the current claim.", NOTE, XH, "5/C13")
+claim("C13", "Part A (refusals): same step driver as C01-C04; whenever the call raised, the observation must equal the pre-state and the C01-C03 predicates must hold. Part B (callback faults): for 14 operations taking a user callback (id calculation, predicate, match, sort key, visitor, serialize/deserialize mappers, dot mappers) the k-th invocation raises (k symbolic); C01-C03 predicates must hold afterwards and read-only operations must leave the observation unchanged.", NOTE, XH, "5/C13")
 claim("C14", "to_dict_list() equals an independent nested encoding and from_dict() of it - directly and after a JSON round trip - reproduces shape, order, data, custom ids and clone partition, for string trees, explicit ids and keyed objects with inverse mappers; both root representations.", NOTE, XH, "5/C14")
-claim("C15", "A parent (tree or nested node) with up to 4 (thorough 6) children whose kinds are symbolic one-character strings (all equality patterns): every kind-aware query for every child position, every present kind plus an absent one and any_kind on/off equals a list comprehension over the child list.", NOTE, XH, "5/C15")
+claim("C15", "A parent (tree or nested node) with up to 4 (thorough 6) children whose kinds are symbolic selectors over three kind names (all same/different patterns; stored and queried strings are distinct objects): every kind-aware query for every child position, every present kind plus an absent one and any_kind on/off equals a list comprehension over the child list.", NOTE, XH, "5/C15")
 claim("C16", "Per shape: symbolic style selector over the 28 table styles, 'list', a custom 4-tuple and 6-tuple, symbolic join selector; every start node, add_self, title mode and repr kind rendered and compared with an independent renderer written from the user guide.", NOTE + " Symbolic z3 strings for the segments were tried and dropped (12 s per path).", XH, "5/C16")
 claim("C17", "Per shape plain and typed, symbolic label/kind selectors (clones), start, unique_nodes, add_root: DOT and Mermaid output parsed by independent parsers, RDF triples read from the rdflib graph; node definitions and edge lists compared with the parent vector.", NOTE + " rdflib (pure Python) is imported from /venv's site-packages.", XH, "5/C17")
 claim("C18", "For each of 9 snapshot operations x 3 tree classes x 3 tree states the lock/read trace is extracted from the current source with a monitor; z3 decides for all interleavings of W writers x C critical sections with R readers (quick 1x2x1, thorough 2x2x2) whether a reader READ can fall inside a foreign critical section (must be unsat); sat schedules are replayed with real threads; re-entrancy is run under a watchdog.", "Trusted: threading.RLock semantics as encoded, completeness of the monitored read set (_root, _node_by_id, _nodes_by_data_id), one trace per operation (no data-dependent locking).", Z3S, "5/C18")
